@@ -290,6 +290,9 @@ fn main() {
     cov.insert("rule".into(), json!(format!(
         "every concatenation of 0..{} records from a {}-record catalogue (8 TLS, 4 DTLS) followed by each of {} terminators (nothing, strict prefixes of valid records, oversize headers, valid header with bad content, unknown type, garbage), plus every single lying-length deviation of records carrying each kind of catalogue handshake message (TLS and DTLS) after 0..2 valid records, through tls_parser_many and parse_dtls_plaintext_records; complete records of 16639 / 16640 / 16641 / 16642 / 20000 / 65535 bytes (4 TLS and 3 DTLS kinds) alone, after valid records and followed by data; buffers of 5 / 6 / 7 / 8 / 15 / 100 / 255 / 256 / 257 / 1000 minimal records of 5 kinds; every string of length <= {} (TLS) / <= {} (DTLS) over record-oriented positional alphabets. Oracle: the explicit loop over the real single-record parser (same records by value and slice position, remainder = first failing record, failure iff the first record fails); tls_parser == parse_tls_plaintext on every buffer. Non-trivial: every buffer",
         k, nrec, terms.len(), n, nd)));
+    // the same check against the crate built with all cargo features (std, serialize, unstable)
+    let mut sink = sink;
+    run.all_features_variant(&mut sink);
     let code = run.finish(&sink, cov, vec!["differential oracle: the single-record parsers are taken as given here (their correctness is C02/C03/C10)".into()]);
     std::process::exit(code);
 }
